@@ -29,6 +29,7 @@ func verif_istype[T any](x any) bool { _, ok := x.(T); return ok }
 func verif_fst[A, B any](a A, b B) A { return a }
 func verif_snd[A, B any](a A, b B) B { return b }
 func verif_ptr[T any](n int) *T { return nil }
+func verif_le64(b []byte) uint64
 func verif_same(a, b any) bool
 func verif_raw(a any) int
 func verif_calls(name string) int
